@@ -66,3 +66,30 @@ Theorem C07_source_limit : forall (b : bump) left d en,
   call_fn src_fns en "chunk_fits_under_limit" [vopt left; vdetails d] = Ret (VB (fits left d)).
 Proof. exact (fun b left d en => conj (src_allocation_limit_remaining_ok b) (src_chunk_fits_under_limit_ok left d en)). Qed.
 Print Assumptions C07_source_limit.
+
+(* ---- whole histories (ArenaLimit.v) ---- *)
+From BV Require Import ArenaGrowth ArenaLimit.
+
+(* any acquirers: if every chunk granted fitted under the limit in force, and the limit was only
+   ever set to a value that what was already held respects, allocated_bytes <= limit everywhere *)
+Theorem C07_history_invariant : forall k h b,
+  hist_ok k (under k) lim_change_ok b h -> LimInv b -> LimInv (run k b h).
+Proof. exact limit_history. Qed.
+
+(* the crate's own policy, whatever the global allocator answers (refusals included): at every
+   reachable state the bytes held for allocation respect the limit in force *)
+Theorem C07_never_exceeded_over_histories : forall k h,
+  crate_limited k fresh h ->
+  match limit (run k fresh h) with
+  | Some L => q_allocated_bytes (run k fresh h) <= L
+  | None => True
+  end.
+Proof. exact crate_never_exceeds_limit. Qed.
+
+Example C07_history_witness :
+  crate_limited k_ex fresh h_lim /\ limit (run k_ex fresh h_lim) = Some 3000 /\
+  map c_nswf (chunks (run k_ex fresh h_lim)) = [960; 448] /\ q_allocated_bytes (run k_ex fresh h_lim) = 1408.
+Proof. exact crate_limited_example. Qed.
+
+Print Assumptions C07_history_invariant.
+Print Assumptions C07_never_exceeded_over_histories.
